@@ -3,8 +3,17 @@
 A case is a plain dict: cell (vects, origin), pbc, atom positions (Cartesian,
 computed here from the generating relative coordinates), atom types and extra
 per-atom properties.  Classes are a function of the case index; the moduli of
-the class tables (9, 32, 25, 7, 11) are pairwise coprime, so every combination
+the class tables (9, 32, 25, 7, 13) are pairwise coprime, so every combination
 of classes is met within lcm cases and every single class within a few cases.
+
+Length scales: the same crystal expressed in every working length unit a user
+can select (1 angstrom = 1e-10 m = 1e-8 cm = 1e-7 mm = 1e-4 um = 0.1 nm =
+1.89 bohr = 100 pm = 1e5 fm) plus the historical 1e4.  Nothing the property
+states depends on the unit, so every class is crossed with every scale.
+
+Histories (``HISTORIES``): sequences of calls on ONE System / Box object (cell
+replaced, atoms moved, periodicity changed, scaled reads in between); the
+helpers ``new_cell`` and ``displaced`` supply the intermediate inputs.
 """
 from __future__ import annotations
 
@@ -16,19 +25,35 @@ from . import cells
 HANDS = ['right', 'left-c', 'right', 'left-swap', 'left-mirror']        # i % 5
 PROFILES = ['mixed', 'far', 'faces', 'near', 'inside']                   # (i // 5) % 5
 ORIGINS7 = ['zero', 'near', 'far', 'near', 'zero', 'far', 'near']        # i % 7
-SCALES11 = [1.0, 1.0, 1e-4, 1.0, 1e4, 1.0, 1.0, 1e-4, 1.0, 1e4, 1.0]   # i % 11
+SCALES13 = [1.0, 1e-10, 0.1, 1e-8, 1e4, 1.0, 1e-7, 1e-4, 1e-10, 100.0, 1.8897261246, 1e-8, 1e5]   # i % 13
+SCALE_NAMES = {1.0: 'angstrom', 1e-10: 'm', 0.1: 'nm', 1e-8: 'cm', 1e4: '1e4', 1e-7: 'mm', 1e-4: 'um', 100.0: 'pm',
+               1.8897261246: 'bohr', 1e5: 'fm'}
+TINY = 1e-8                                                              # scales <= TINY: every cell component is < ~3e-7
+# call histories on one System (i % 11); the second table says which need a fully periodic system (normalize)
+HISTORIES = ['wrap-move-wrap', 'wrap-newcell-wrap', 'read-boxset-scaled-wrap', 'strain-loop', 'wrap-pbc-wrap',
+             'read-normalize', 'boxset-scaled-normalize', 'wrap-normalize-normalize', 'normalize-twice',
+             'normalize-output-reused', 'box-set-direct-wrap']
+PERIODIC_HISTORIES = {'read-normalize', 'boxset-scaled-normalize', 'wrap-normalize-normalize', 'normalize-twice',
+                      'normalize-output-reused'}
+NEWCELLS = ['strain-tiny', 'other', 'strain', 'rotated', 'strain-small', 'rehanded', 'rescaled']   # (i // 3) % 7
+CELL_STYLES = ['avect', 'vects', 'abc']                                                          # i % 3
+MOVE_STYLES = ['prop-cart', 'prop-scaled', 'view']                                               # (i // 2) % 3
 NATOMS = ['one', 'two', 'few', 'many']                                   # (i // 8) % 4
 FAR = 50
 
 
-def classes(i, periodic_only=False):
+def scale_name(scale):
+    return SCALE_NAMES.get(scale, '%g' % scale)
+
+
+def classes(i, periodic_only=False, scale=None):
     kind = cells.KINDS[i % 9]
     pbc = (True, True, True) if periodic_only else cells.PBCS[7 - i % 8]
     nat = NATOMS[(i // 8) % 4]
     hand = HANDS[i % 5]
     profile = PROFILES[(i // 5) % 5]
     return dict(kind=kind, pbc=pbc, natoms=nat, hand=hand, profile=profile,
-                origin=ORIGINS7[i % 7], scale=SCALES11[i % 11])
+                origin=ORIGINS7[i % 7], scale=SCALES13[i % 13] if scale is None else scale)
 
 
 def make_left(vects, origin, how):
@@ -87,8 +112,69 @@ def gen_rel(rng, n, profile):
     return rel, tags
 
 
-def gen_system(rng, i, periodic_only=False, max_atoms=40):
-    c = classes(i, periodic_only)
+def new_cell(rng, vects, origin, how):
+    """A replacement cell for an existing one (rows = cell vectors).  Everything is
+    relative to the old cell, so the class is the same at every length scale.
+    strain-tiny  : homogeneous strain of 1e-9..1e-6 (a thermal-expansion / relaxation step)
+    strain-small : strain of 1e-6..1e-4
+    strain       : strain of 1e-3..0.2 plus an origin shift
+    rotated      : the same cell rigidly rotated, origin rotated with it
+    other        : an unrelated cell of similar size
+    rehanded     : handedness reversed (one vector reversed), origin moved
+    rescaled     : uniformly 0.5x..3x larger"""
+    v = np.array(vects, float)
+    o = np.array(origin, float)
+    L = np.linalg.norm(v, axis=1).max()
+    if how in ('strain-tiny', 'strain-small', 'strain'):
+        lo, hi = {'strain-tiny': (-9, -6), 'strain-small': (-6, -4), 'strain': (-3, -0.7)}[how]
+        e = rng.uniform(-1, 1, (3, 3)) * 10 ** rng.uniform(lo, hi)
+        v2 = v @ (np.eye(3) + e)
+        o2 = o + (rng.uniform(-0.5, 0.5, 3) * L if how == 'strain' else 0.0)
+    elif how == 'rotated':
+        R = G.random_rotation(rng)
+        v2, o2 = v @ R.T, o @ R.T
+    elif how == 'other':
+        kind = cells.KINDS[int(rng.integers(0, len(cells.KINDS)))]
+        c = cells.gen_cell(rng, kind, 'near', 1.0)
+        f = L / c['L'] * rng.uniform(0.6, 1.6)
+        v2, o2 = c['vects'] * f, c['origin'] * f
+    elif how == 'rehanded':
+        v2 = v.copy()
+        k = int(rng.integers(0, 3))
+        v2[k] = -v2[k]
+        o2 = o + rng.uniform(-1, 1, 3) * L
+    elif how == 'rescaled':
+        f = rng.uniform(0.5, 3.0)
+        v2, o2 = v * f, o * f
+    else:
+        raise ValueError(how)
+    return v2, o2
+
+
+def displaced(rng, pos, vects, origin):
+    """New Cartesian positions for the atoms of a system whose cell is (vects, origin):
+    a third stay, a third move within the cell scale, a third jump several cells away or
+    land exactly on a face; returned with the number of atoms that end outside / on a face."""
+    pos = np.array(pos, float)
+    n = len(pos)
+    rel = G.rel(pos, vects, origin)
+    for j in range(n):
+        t = (j + int(rng.integers(0, 3))) % 3
+        if t == 1:
+            rel[j] += rng.uniform(-0.7, 0.7, 3)
+        elif t == 2:
+            if rng.random() < 0.3:
+                rel[j, int(rng.integers(0, 3))] = float(rng.integers(-3, 5))
+            else:
+                rel[j] += rng.integers(-6, 7, 3)
+    if n:                                                  # at least one atom leaves the cell
+        rel[int(rng.integers(0, n))] += rng.choice([-1, 1], 3) * rng.integers(1, 4, 3)
+    out = int(((rel <= 0) | (rel >= 1)).any(axis=1).sum())
+    return G.cart(rel, vects, origin), rel, out
+
+
+def gen_system(rng, i, periodic_only=False, max_atoms=40, scale=None):
+    c = classes(i, periodic_only, scale)
     cell = cells.gen_cell(rng, c['kind'], c['origin'], c['scale'])
     v, o = cell['vects'], cell['origin']
     if c['hand'] != 'right':
